@@ -6,7 +6,8 @@
    (1-c)/2 capped at 1/2, r1 = 2 mu - l1 and
    band l r = Phi(r - 1/2) - Phi(l - 1/2) for the CDF Phi of the approximating normal. *)
 From MM Require Import Base.Num Base.GFSum Model.Choose Model.Binom Model.QuantileCI Check.C06 Check.C11
-                       Proofs.Binom Proofs.QuantileCI Proofs.QuantileCISet Proofs.QuantileCIScale Proofs.QuantileCILaws Proofs.QuantileCIExact Proofs.QuantileCISetScale Proofs.QuantileCIGraph.
+                       Proofs.Binom Proofs.QuantileCI Proofs.QuantileCISet Proofs.QuantileCIScale Proofs.QuantileCILaws Proofs.QuantileCIExact Proofs.QuantileCISetScale Proofs.QuantileCIGraph
+                       Proofs.QuantileCIMembers Proofs.CheckBase Proofs.CheckC11.
 From Coq Require Import Sorted Permutation.
 Local Open Scope Q_scope.
 
@@ -93,35 +94,59 @@ Proof. exact quantile_ci_normal. Qed.
 Print Assumptions C11_normal_dispatch.
 
 (* n > 30 (the code after "fix: QuantileCI returns an empty or inverted interval for confidence <= 0
-   when n > 30").  For ANY Phi: with l0 - 1/2 the greatest half-integer <= l1 and r - 1/2 the least
-   half-integer >= r1 (outward rounding; the left end actually used is l = l0, except that an empty
-   rounded band keeps the bucket below r — l = l0 whenever l1 < r1, and always l <= l0, l < r), the
-   result is that band clamped to [0, n+1], or one bucket shorter on the right with Ambiguous set
-   exactly when the shorter band is not empty, still has mass >= c and strictly less than the
-   symmetric one (and the band does not cover everything); Confidence is the Phi-mass of the
+   when n > 30" and "fix: QuantileCI confidence can fall a few ulps short of the request when n > 30").
+   For ANY Phi: with l0 - 1/2 the greatest half-integer <= l1 and r - 1/2 the least half-integer >= r1
+   (outward rounding; the left end of the rounded band is l = l0, except that an empty rounded band keeps the
+   bucket below r — l = l0 whenever l1 < r1, and always l <= l0, l < r), the band is widened by k >= 0 buckets
+   on each side: every narrower band had mass < c and did not cover [0, n+1], and the band taken (lw, rw) has
+   mass >= c or covers [0, n+1]; the result is that band clamped to [0, n+1], or one bucket shorter on the
+   right with Ambiguous set exactly when the shorter band is not empty, still has mass >= c and strictly
+   less than the symmetric one (and the band does not cover everything); Confidence is the Phi-mass of the
    unclamped band, 1 when it covers [0, n+1]. *)
 Theorem C11_normal_band : forall (Phi : Q -> Q) n c l1 r1,
   let l0 := (Qround.Qfloor (l1 - (1 # 2)) + 1)%Z in
   let r := (Qround.Qceiling (r1 - (1 # 2)) + 1)%Z in
   let l := if (r <=? l0)%Z then (r - 1)%Z else l0 in
-  let biased := (l <? r - 1)%Z && Qle_bool c (band Phi l (r - 1)) && Qltb (band Phi l (r - 1)) (band Phi l r) in
-  let r' := if biased then (r - 1)%Z else r in
-  let full := (l <=? 0)%Z && (n + 1 <=? r')%Z in
-  let res := qci_normal (band Phi) n c l1 r1 in
   (inject_Z l0 - (1 # 2) <= l1 /\ l1 < inject_Z l0 + (1 # 2) /\ r1 <= inject_Z r - (1 # 2) /\ inject_Z r - (3 # 2) < r1) /\
   ((l <= l0)%Z /\ (l < r)%Z /\ (l1 < r1 -> l = l0) /\ (l1 <= r1 -> (l0 <= r)%Z)) /\
-  r_lo res = Z.max l 0 /\ r_hi res = Z.min r' (n + 1) /\ r_amb res = (biased && negb full) /\
-  r_conf res = (if full then 1 else band Phi l r').
+  exists k, (0 <= k)%Z /\
+    (forall j, (0 <= j < k)%Z -> band Phi (l - j) (r + j) < c /\ (0 < l - j \/ r + j < n + 1)%Z) /\
+    let lw := (l - k)%Z in
+    let rw := (r + k)%Z in
+    (c <= band Phi lw rw \/ (lw <= 0 /\ n + 1 <= rw)%Z) /\
+    let biased := (lw <? rw - 1)%Z && Qle_bool c (band Phi lw (rw - 1)) && Qltb (band Phi lw (rw - 1)) (band Phi lw rw) in
+    let r' := if biased then (rw - 1)%Z else rw in
+    let full := (lw <=? 0)%Z && (n + 1 <=? r')%Z in
+    let res := qci_normal (band Phi) n c l1 r1 in
+    r_lo res = Z.max lw 0 /\ r_hi res = Z.min r' (n + 1) /\ r_amb res = (biased && negb full) /\
+    r_conf res = (if full then 1 else band Phi lw r').
 Proof. exact qci_normal_band_full. Qed.
 Print Assumptions C11_normal_band.
 
-(* Confidence is never below c when l1, r1 bracket the central mass 1 - 2 alpha of a non-decreasing
-   Phi, alpha = (1-c)/2 capped at 1/2 as in the code *)
-Theorem C11_normal_conf_ge_c : forall (Phi : Q -> Q) n c l1 r1, (forall a b, a <= b -> Phi a <= Phi b) ->
-  c <= 1 -> Phi l1 <= qci_alpha c -> 1 - qci_alpha c <= Phi r1 ->
-  c <= r_conf (qci_normal (band Phi) n c l1 r1).
-Proof. exact qci_normal_conf_ge_c. Qed.
+(* Confidence is never below c (c <= 1) — for EVERY band-mass function (not only differences of a CDF, not
+   only monotone ones) and whatever l1 and r1 are: since the repair the loop re-checks the mass of the band,
+   so this clause does not depend on the accuracy of InvCDF or CDF at all *)
+Theorem C11_normal_conf_ge_c : forall (cdfband : Z -> Z -> Q) n c l1 r1, c <= 1 ->
+  c <= r_conf (qci_normal cdfband n c l1 r1).
+Proof. exact qci_normal_conf_ge_c_gen. Qed.
 Print Assumptions C11_normal_conf_ge_c.
+
+(* when l1, r1 do bracket the central mass 1 - 2 alpha of a non-decreasing Phi, alpha = (1-c)/2 capped at 1/2
+   as in the code, the rounded band already has mass >= c: the loop does not widen, and the result is the
+   outward rounding of [l1, r1] itself (trimmed / clamped) *)
+Theorem C11_normal_no_widening : forall (Phi : Q -> Q) n c l1 r1, (forall a b, a <= b -> Phi a <= Phi b) ->
+  Phi l1 <= qci_alpha c -> 1 - qci_alpha c <= Phi r1 ->
+  let l0 := (Qround.Qfloor (l1 - (1 # 2)) + 1)%Z in
+  let r := (Qround.Qceiling (r1 - (1 # 2)) + 1)%Z in
+  let l := if (r <=? l0)%Z then (r - 1)%Z else l0 in
+  c <= band Phi l r /\
+  let biased := (l <? r - 1)%Z && Qle_bool c (band Phi l (r - 1)) && Qltb (band Phi l (r - 1)) (band Phi l r) in
+  let r' := if biased then (r - 1)%Z else r in
+  let full := (l <=? 0)%Z && (n + 1 <=? r')%Z in
+  qci_normal (band Phi) n c l1 r1 =
+  mkR (Z.max l 0) (Z.min r' (n + 1)) (if full then 1 else if biased then band Phi l (r - 1) else band Phi l r) (biased && negb full).
+Proof. exact qci_normal_no_widening. Qed.
+Print Assumptions C11_normal_no_widening.
 
 (* 0 <= LoOrder < HiOrder <= n+1 for EVERY c (c <= 0 included) and any Phi, for a central interval
    l1 <= r1 symmetric about a mean inside [0, n] *)
@@ -289,6 +314,61 @@ Theorem C11_comparator_graph_exists : forall (n : nat) (q : Q) (exact : bool), 0
 Proof. exact comparator_graph_exists. Qed.
 Print Assumptions C11_comparator_graph_exists.
 
+(* ---------- what an accepted verdict of the comparator means ---------- *)
+(* EVERY member of the admissible-outcome set (any PMF P >= 0 supported on [0,n], window off or 1/ieps > 1,
+   start candidates in [0,n], scale sc, scaled level c) satisfies the clauses of the property: orders,
+   Confidence == mass of the buckets lo..hi-1, contains a start candidate, may stop there (no mass next to
+   the interval, or level reached, or level within the window), one end bucket was needed (or within the
+   window), Ambiguous only with P(lo) == P(hi) or within the window (the interval shifted up by one then has
+   mass Confidence + P(hi) - P(lo)); on integer masses Confidence is an integer.  "Within the window" is
+   [near ieps a b = true] — never when ieps = 0 (nearp_off), relative distance <= 1/ieps otherwise. *)
+Theorem C11_admissible_set_members : forall (P : Z -> Q) (ieps : Q) (n : Z),
+  (forall k, 0 <= P k) -> (forall k, (k < 0 \/ n < k)%Z -> P k == 0) -> ieps == 0 \/ 1 < ieps ->
+  forall (sc c : Q) (xs : list Z), (forall x, In x xs -> (0 <= x <= n)%Z) ->
+  forall g r, qci_graph P ieps n xs = Some g -> In r (qci_small_set P ieps n g sc c) ->
+  (0 <= r_lo r)%Z /\ (r_lo r < r_hi r)%Z /\ (r_hi r <= n + 1)%Z /\
+  r_conf r == Qsum_range P (r_lo r) (r_hi r - 1) /\
+  (exists x, In x xs /\ (r_lo r <= x < r_hi r)%Z) /\
+  ((P (r_lo r - 1)%Z == 0 /\ P (r_hi r) == 0) \/ c <= sc * r_conf r \/ nearp ieps (sc * r_conf r) c) /\
+  ((2 <= r_hi r - r_lo r)%Z ->
+     exists a, (a == r_conf r - P (r_lo r) \/ a == r_conf r - P (r_hi r - 1)%Z) /\ (sc * a < c \/ nearp ieps (sc * a) c)) /\
+  (r_amb r = true ->
+     Qsum_range P (r_lo r + 1) (r_hi r) - r_conf r == P (r_hi r) - P (r_lo r) /\
+     (P (r_lo r) == P (r_hi r) \/ nearp ieps (P (r_lo r)) (P (r_hi r)) \/ nearp ieps (P (r_hi r)) (P (r_lo r)))) /\
+  ((forall k, Qden (P k) = 1%positive) -> Qden (r_conf r) = 1%positive).
+Proof. exact set_members_spec. Qed.
+Print Assumptions C11_admissible_set_members.
+
+(* An accepted case line (verdict code 0 or 1) parses COMPLETELY into a case of one of the three operations and
+   - op 0 (n <= 30): for every (c, observation) of the line [small_item_ok]: N = n, Quantile = q bit for bit,
+     0 <= Lo < Hi <= n+1; c >= 1: whole range, Confidence 1, not Ambiguous; c < 1 [small_clauses]: the observed
+     Confidence is within 1e-10 of the exact Binomial(n,q) mass m of the buckets Lo..Hi-1 AND, as a float,
+     >= c itself (unless neither neighbour bucket has mass >= 2^-999: the loop ran out of mass), the interval contains
+     a start candidate (the lower mode [mode_x], or when (n+1) q is within 2^-40 of an integer and the regime is
+     not float-exact, one of the two integers next to it), m >= c or m within the window of c or there is no
+     mass next to the interval, m minus ONE end bucket is < c or within the window of c, Ambiguous only if
+     P(Lo) == P(Hi) or within the window.  The window (relative 2^-40) is OFF in the float-exact regime
+     [exact_regime n q] (n <= 20, q = a/2^e, e n <= 52): there the clauses are exact.  And the observed
+     intervals of one line are NESTED as c grows [nest_in]: for any two items with c <= c' the interval of c'
+     contains the interval of c (equal c: equal intervals).
+   - op 1 (n > 30) [normal_ok]: orders, c >= 1 short cut, and for c < 1 the band logic with respect to the
+     OBSERVED Phi values [normal_clauses]: oracle values consistent with Normal(nq, nq(1-q)), outward rounding,
+     K widenings each of a band with observed mass < c, trim, full-range fix-up, clamps, Confidence >= c.
+   - op 2 (SampleCI) [sample_ok]: the sample's bit patterns are unchanged by the call; a panic exactly when the
+     model panics (weighted sample, size mismatch, order out of range); otherwise lo / hi equal the model's
+     [sample_ci] values (order statistics of the sorted copy, -inf / +inf outside: C11_sample_ci) and the first
+     result equals Quantile(q) of a sorted copy bit for bit (C10's function). *)
+Theorem C11_check_ok_sound : forall line, accepted (check_C11 line) ->
+  exists rest,
+    (line = 11%Z :: 0%Z :: rest /\
+       exists n qb items q, p_op0 rest = Some ((n, qb, items), []) /\ decode_bits qb = XFin q /\
+         (1 <= n <= 30)%Z /\ 0 <= q <= 1 /\ Forall (small_item_ok n qb q (exact_regime n q)) items /\
+         (forall a b, In a items -> In b items -> fst a <= fst b -> nest_in a b)) \/
+    (line = 11%Z :: 1%Z :: rest /\ exists cs, p_op1 rest = Some (cs, []) /\ normal_ok cs) \/
+    (line = 11%Z :: 2%Z :: rest /\ exists c, p_op2 rest = Some (c, []) /\ sample_ok c).
+Proof. exact check_C11_ok_sound. Qed.
+Print Assumptions C11_check_ok_sound.
+
 (* ---------- non-vacuity ---------- *)
 Example C11_small_example :
   let run n q c := option_map (fun r => (r_lo r, r_hi r, Qred (r_conf r), r_amb r))
@@ -344,8 +424,18 @@ Example C11_sample_sorted_example :
   sample_ci 4 1 4 false true [1; 1; 2; 3] = SciOk (XFin 1) (XFin 3) [1; 1; 2; 3].
 Proof. vm_compute. reflexivity. Qed.
 
+Example C11_normal_widening_example :
+  (* the ramp CDF again, l1 = 45.7, r1 = 54.3 (rounded band [46, 55), mass 9/20) but c = 1/2: the band is too
+     light, it is widened once to [45, 56) (mass 11/20), and the left-biased trim then takes [45, 55) with mass
+     exactly 1/2 >= c; with c = 51/100 the trim is not possible *)
+  let r := qci_normal (band ramp) 100 (1 # 2) (457 # 10) (543 # 10) in
+  let r2 := qci_normal (band ramp) 100 (51 # 100) (457 # 10) (543 # 10) in
+  (r_lo r, r_hi r, Qred (r_conf r), r_amb r) = (45%Z, 55%Z, 1 # 2, true) /\
+  (r_lo r2, r_hi r2, Qred (r_conf r2), r_amb r2) = (45%Z, 56%Z, 11 # 20, false).
+Proof. vm_compute. split; reflexivity. Qed.
+
 Example C11_normal_hyps_example :
-  (* the hypotheses of C11_normal_conf_ge_c and C11_normal_orders hold for the ramp CDF (proved
+  (* the hypotheses of C11_normal_no_widening and C11_normal_orders hold for the ramp CDF (proved
      non-decreasing: ramp_mono) at c = 2/5, l1 = 45.7, r1 = 54.3, mu = 50, n = 100 *)
   ramp (457 # 10) <= qci_alpha (2 # 5) /\ 1 - qci_alpha (2 # 5) <= ramp (543 # 10) /\
   (457 # 10) + (543 # 10) == 2 * 50 /\ (2 # 5) <= r_conf (qci_normal (band ramp) 100 (2 # 5) (457 # 10) (543 # 10)).
@@ -376,3 +466,18 @@ Example C11_rational_set_example :
   | None => False
   end.
 Proof. vm_compute. reflexivity. Qed.
+
+Example C11_check_ok_example :
+  (* three case lines as the harness printed them for /repo (integers of the line in decimal):
+     op 0  QuantileCI(2, 0.5, c) for c = 0.5, 0.9, 1;
+     op 1  QuantileCI(100, 0.5, 0.079655674554058) — the D19 witness: the rounded band [50, 51) is too light
+           (observed mass 0.07965567455405795 < c), it is widened once to [49, 52), and the left-biased trim
+           gives {49, 51, Ambiguous, 0.1577...}: tag 34176 = 128 + 256 + 1024 + 32768;
+     op 2  SampleCI of {N:3, LoOrder:1, HiOrder:3} on the sample [3, 1, 2].
+     All three are accepted — so the hypothesis of C11_check_ok_sound is satisfiable for each operation —
+     and the op-1 line with its Confidence lowered by one ulp is rejected. *)
+  check_C11 [11; 0; 2; 4602678819172646912; 3; 4602678819172646912; 2; 4602678819172646912; 4602678819172646912; 1; 2; 0; 4606281698874543309; 2; 4602678819172646912; 4607182418800017408; 0; 3; 0; 4607182418800017408; 2; 4602678819172646912; 4607182418800017408; 0; 3; 0]%Z = [0; 87; -1]%Z /\
+  check_C11 [11; 1; 100; 4602678819172646912; 4590404216922998546; 4632233691727265792; 4617315517961601024; 4632163322983088128; 4632304060471443456; 50; 51; 4597664433683061702; 4594851176051756966; 4601961344640167710; 4603740870846712697; 4600554715824515343; 4603037556438886513; 1; 4590404216922998544; 4603037556438886513; 4601961344640167710; 100; 4602678819172646912; 4594851176051756966; 49; 51; 1]%Z = [0; 34176; -1]%Z /\
+  check_C11 [11; 2; 3; 1; 3; 4602678819172646912; 0; 0; 0; 3; 4613937818241073152; 4607182418800017408; 4611686018427387904; 3; 4613937818241073152; 4607182418800017408; 4611686018427387904; 4611686018427387904; 4607182418800017408; 4613937818241073152; 4611686018427387904]%Z = [0; 1024; -1]%Z /\
+  hd 0%Z (check_C11 [11; 1; 100; 4602678819172646912; 4590404216922998546; 4632233691727265792; 4617315517961601024; 4632163322983088128; 4632304060471443456; 50; 51; 4597664433683061702; 4594851176051756966; 4601961344640167710; 4603740870846712697; 4600554715824515343; 4603037556438886513; 1; 4590404216922998544; 4603037556438886513; 4601961344640167710; 100; 4602678819172646912; 4594851176051756965; 49; 51; 1]%Z) = 2%Z.
+Proof. vm_compute. repeat split; reflexivity. Qed.
